@@ -49,7 +49,7 @@ type ProvSpec struct {
 }
 type Item struct {
 	Key  string
-	Form int // 0 plain (no precomputed data), 1 decoded+preprocessed, 2 plain then explicit Preprocess*
+	Form int // 0 plain (no precomputed data), 1 decoded+preprocessed, 2 plain then explicit Preprocess*, 3 via ldbuilders, 4 decoded, re-encoded by the library, decoded again
 	Doc  *J
 }
 type EvalCase struct {
@@ -334,6 +334,16 @@ func makeFlag(it Item) (*ldmodel.FeatureFlag, error) {
 	case 3:
 		g := flagViaBuilders(f)
 		return &g, nil
+	case 4: // what a persistent store or a relay hands out: the library's own encoding of the decoded flag, decoded again
+		b, err := serialization.MarshalFeatureFlag(f)
+		if err != nil {
+			return nil, err
+		}
+		g, err := serialization.UnmarshalFeatureFlag(b)
+		if err != nil {
+			return nil, err
+		}
+		return &g, nil
 	}
 	return &f, nil
 }
@@ -352,6 +362,16 @@ func makeSegment(it Item) (*ldmodel.Segment, error) {
 		return &g, nil
 	case 3:
 		g := segmentViaBuilders(s)
+		return &g, nil
+	case 4:
+		b, err := serialization.MarshalSegment(s)
+		if err != nil {
+			return nil, err
+		}
+		g, err := serialization.UnmarshalSegment(b)
+		if err != nil {
+			return nil, err
+		}
 		return &g, nil
 	}
 	return &s, nil
